@@ -47,6 +47,21 @@ Proof. solve_decision. Defined.
 (** smartcontract.GetMajorityHonestNodeCount: [n - (n-1)/2]. *)
 Definition maj_m (n : nat) : nat := (n - (n - 1) / 2)%nat.
 
+(** The two places where the source may be read in two ways: the pinned
+    commit, and the repair suggested for findings F7/F8 (the model is generic
+    so that both can be stated and compared; the correspondence check uses
+    the variant that describes /repo's working tree).
+      - [v_first]: first index of the leader's collection loop.
+        notary.go:390 [for i := range prm.committee[1:]] yields 0..n-2
+        ([v_first = 0]); the repaired loop [for i := 1; i < len(committee); i++]
+        yields 1..n-1 ([v_first = 1]).
+      - [v_sorted]: whether the collected signatures are appended in index
+        order. notary.go:478,486 range over the Go map (any order:
+        [v_sorted = false]); the repair sorts the indices. *)
+Record variant := mkVariant { v_first : nat; v_sorted : bool }.
+Definition as_pinned : variant := mkVariant 0 false.
+Definition as_repaired : variant := mkVariant 1 true.
+
 (** Transactions members send (state-changing calls of the NNS contract and
     the designation itself). *)
 Inductive write : Type :=
@@ -248,6 +263,10 @@ Fixpoint range_map (order : list nat) (m : list (nat * sigval)) : list sigval :=
       end
   end.
 
+(** Order in which the finalisation appends the collected signatures. *)
+Definition assemble (v : variant) (n : nat) (order : list nat) (m : list (nat * sigval)) : list sigval :=
+  range_map (if v_sorted v then seq 0 (S n) else order) m.
+
 (** resetTx (notary.go:213-219). *)
 Definition reset_tx (l : leader) : leader :=
   mkLeader None [] [] false (l_tried l) (l_reg l) None.
@@ -303,7 +322,7 @@ Definition set_m (l : leader) (m : list (nat * sigval)) : leader :=
   mkLeader (l_tx l) (l_script l) m (l_full l) (l_tried l) (l_reg l) (l_set l).
 
 (** After the collection (notary.go:454-519); [l] already holds the updated map. *)
-Definition leader_finish (n : nat) (maxinc nonce : Z) (order : list nat) (c : chain) (d : data) (l : leader)
+Definition leader_finish (v : variant) (n : nat) (maxinc nonce : Z) (order : list nat) (c : chain) (d : data) (l : leader)
   : chain * leader * list event :=
   let need := (maj_m n - 1)%nat in
   if (length (l_m l) <? need)%nat then (c, l, [])             (* 454-458 *)
@@ -313,17 +332,17 @@ Definition leader_finish (n : nat) (maxinc nonce : Z) (order : list nat) (c : ch
     (* 472-494 *)
     let '(l, ev) :=
       if l_full l then (l, [])
-      else let script := l_script l ++ range_map order (l_m l) in
+      else let script := l_script l ++ assemble v n order (l_m l) in
            (mkLeader (l_tx l) script (l_m l) true (l_tried l) (l_reg l) (l_set l),
             [EAssembled d (mkSig 0 d :: script)]) in
     let full_script := mkSig 0 d :: l_script l in             (* local signature comes first (367) *)
     let w := WDesignate d full_script in
-    let v := node_verdict n d full_script in
-    let v := match v with
-             | VAccepted => if bool_decide (w ∈ map snd (c_pool c)) then VAlreadyKnown else VAccepted
-             | _ => v
-             end in
-    match v with                                              (* 498: localActor.Send(tx) *)
+    let vd := node_verdict n d full_script in
+    let vd := match vd with
+              | VAccepted => if bool_decide (w ∈ map snd (c_pool c)) then VAlreadyKnown else VAccepted
+              | _ => vd
+              end in
+    match vd with                                             (* 498: localActor.Send(tx) *)
     | VAccepted =>
         let '(c', id) := pool_add c w in
         (c', mkLeader (l_tx l) (l_script l) (l_m l) (l_full l) true (l_reg l) (l_set l),
@@ -332,10 +351,10 @@ Definition leader_finish (n : nat) (maxinc nonce : Z) (order : list nat) (c : ch
         let '(c', l', ev') := generate_and_share maxinc nonce true c l in
         (c', l', (ev ++ [ERejected w VVerificationFailed]) ++ ev')
     | VInvalidSignature | VAlreadyKnown =>                    (* 501-503: logged, nothing else *)
-        (c, l, ev ++ [ERejected w v])
+        (c, l, ev ++ [ERejected w vd])
     end.
 
-Definition leader_tick (n : nat) (maxinc nonce : Z) (order : list nat) (c : chain) (l : leader)
+Definition leader_tick (v : variant) (n : nat) (maxinc nonce : Z) (order : list nat) (c : chain) (l : leader)
   : chain * leader * list event :=
   match lookup_tx c with                                      (* 283 *)
   | LMissingDomain =>                                         (* 285-310 *)
@@ -356,12 +375,12 @@ Definition leader_tick (n : nat) (maxinc nonce : Z) (order : list nat) (c : chai
         let need := (maj_m n - 1)%nat in                      (* 379 *)
         let collected :=
           if (length (l_m l) <? need)%nat                     (* 381 *)
-          then collect_loop n c d need (l_m l) 0 (seq 0 (n - 1))   (* 390: range committee[1:] *)
+          then collect_loop n c d need (l_m l) 0 (seq (v_first v) (n - 1))   (* 390: range committee[1:] *)
           else CBreak (l_m l) in
         match collected with
         | CRegenerate => generate_and_share maxinc nonce true c l     (* 437 *)
-        | CContinue m _ => leader_finish n maxinc nonce order c d (set_m l m)
-        | CBreak m => leader_finish n maxinc nonce order c d (set_m l m)
+        | CContinue m _ => leader_finish v n maxinc nonce order c d (set_m l m)
+        | CBreak m => leader_finish v n maxinc nonce order c d (set_m l m)
         end
   end.
 
@@ -438,7 +457,7 @@ Definition get_signer (s : pstate) (k : nat) : signer := default signer0 (p_sign
 
 (** A member ticks only while [checkRole] says the role is not designated
     (enableNotary, notary.go:89-110). *)
-Definition pstep (n : nat) (maxinc : Z) (s : pstate) (lb : label) : pstate * list event :=
+Definition pstep (v : variant) (n : nat) (maxinc : Z) (s : pstate) (lb : label) : pstate * list event :=
   match lb with
   | LTick k nonce order =>
       if c_designated (p_chain s) || negb (k <? n)%nat then (s, [])
@@ -446,7 +465,7 @@ Definition pstep (n : nat) (maxinc : Z) (s : pstate) (lb : label) : pstate * lis
         let '(c, p, ev) := solo_tick nonce (p_chain s) (p_solo s) in
         (mkP c (p_leader s) (p_signers s) p, ev)
       else if (k =? 0)%nat then
-        let '(c, l, ev) := leader_tick n maxinc nonce order (p_chain s) (p_leader s) in
+        let '(c, l, ev) := leader_tick v n maxinc nonce order (p_chain s) (p_leader s) in
         (mkP c l (p_signers s) (p_solo s), ev)
       else
         let '(c, sg, ev) := signer_tick k (p_chain s) (get_signer s k) in
@@ -467,12 +486,12 @@ Definition pstep (n : nat) (maxinc : Z) (s : pstate) (lb : label) : pstate * lis
   end.
 
 (** Run a history; the trace pairs every label with the events it produced. *)
-Fixpoint prun (n : nat) (maxinc : Z) (s : pstate) (ls : list label) : pstate * list event :=
+Fixpoint prun (v : variant) (n : nat) (maxinc : Z) (s : pstate) (ls : list label) : pstate * list event :=
   match ls with
   | [] => (s, [])
   | lb :: ls' =>
-      let '(s', ev) := pstep n maxinc s lb in
-      let '(s'', evs) := prun n maxinc s' ls' in
+      let '(s', ev) := pstep v n maxinc s lb in
+      let '(s'', evs) := prun v n maxinc s' ls' in
       (s'', ev ++ evs)
   end.
 
@@ -512,23 +531,23 @@ Record pcase := mkPCase {
   pc_steps : list (label * list event * option snapshot)
 }.
 
-Fixpoint check_steps (n : nat) (maxinc : Z) (s : pstate) (i : nat)
+Fixpoint check_steps (v : variant) (n : nat) (maxinc : Z) (s : pstate) (i : nat)
     (steps : list (label * list event * option snapshot)) : option val :=
   match steps with
   | [] => None
   | (lb, ev, snap) :: rest =>
-      let '(s', ev') := pstep n maxinc s lb in
+      let '(s', ev') := pstep v n maxinc s lb in
       if negb (bool_decide (visible ev' = ev)) then Some (VList [VInt (Z.of_nat i); VInt 1])
       else match snap with
            | Some sn =>
-               if bool_decide (snapshot_of n (p_chain s') = sn) then check_steps n maxinc s' (S i) rest
+               if bool_decide (snapshot_of n (p_chain s') = sn) then check_steps v n maxinc s' (S i) rest
                else Some (VList [VInt (Z.of_nat i); VInt 2])
-           | None => check_steps n maxinc s' (S i) rest
+           | None => check_steps v n maxinc s' (S i) rest
            end
   end.
 
-Definition check_pcase (c : pcase) : option val :=
-  check_steps (pc_n c) (pc_maxinc c) (pinit (pc_h0 c)) 0 (pc_steps c).
+Definition check_pcase (v : variant) (c : pcase) : option val :=
+  check_steps v (pc_n c) (pc_maxinc c) (pinit (pc_h0 c)) 0 (pc_steps c).
 
 (** * Canonical fair schedule: every live member ticks, everything pooled is
     executed, a block passes — repeated. [order] is the map iteration order
@@ -579,3 +598,22 @@ Definition final_state (n : nat) : final_obs :=
 Definition check_final (c : nat * final_obs) : option val :=
   if bool_decide (snd c = final_state (fst c)) then None
   else Some (VList [VInt (Z.of_nat (fst c)); VInt (Z.of_nat (fo_contracts (snd c)))]).
+
+(** * Source facts: what a go/ast walk over deploy/notary.go finds
+    (harness/deploy_notary_test.go, [c13SourceFacts]) against the variant the
+    model is run with.
+      - [src]: first index of the leader's collection loop and whether the
+        assembly loop ranges over sorted indices;
+      - [count_off]: the loop visits [n - count_off] indices (the model has
+        [seq (v_first v) (n - 1)]);
+      - [verify_own], [key_own]: the loop verifies domain i with
+        [prm.committee[i]] and stores under key i;
+      - [signer_own]: the signer writes the domain of
+        [prm.localAccCommitteeIndex]. *)
+Global Instance variant_eq_dec : EqDecision variant.
+Proof. solve_decision. Defined.
+
+Definition check_src (v src : variant) (count_off : nat) (verify_own key_own signer_own : bool) : option val :=
+  if bool_decide (src = v) && (count_off =? 1)%nat && verify_own && key_own && signer_own then None
+  else Some (VList [VInt (Z.of_nat (v_first src)); VBool (v_sorted src); VInt (Z.of_nat count_off);
+                    VBool verify_own; VBool key_own; VBool signer_own]).
